@@ -45,8 +45,10 @@ def marker_rule(obj):
 
 def cases(depth):
     return st.fixed_dictionaries({
-        "doc": S.doc_spec(max_depth=depth, max_secs=3, max_props=3, text_classes=["plain", "comma"]),
-        "invalidate": st.lists(st.tuples(st.sampled_from(["dup_id", "type_none", "unname", "card", "dep"]),
+        "doc": S.doc_spec(max_depth=depth, max_secs=3, max_props=3,
+                          text_classes=["plain", "comma", "lookalike", "lookalike"]),
+        "invalidate": st.lists(st.tuples(st.sampled_from(["dup_id", "type_none", "unname", "card", "dep", "link",
+                                                          "numeric_strings"]),
                                          st.integers(0, 30), st.integers(0, 30)).map(list), max_size=4),
         "steps": st.lists(st.tuples(st.sampled_from(STEPS), st.integers(0, 30)).map(list), min_size=2,
                           max_size=10),
@@ -99,6 +101,14 @@ def invalidate(doc, edits):
                     secs[a % len(secs)].prop_cardinality = (len(secs[a % len(secs)].properties) + 2, None)
             elif op == "dep" and props:
                 props[a % len(props)].dependency = "missing-%d" % b
+            elif op == "link" and secs:
+                # an unresolved but resolvable link, as a loaded file carries it before finalize()
+                tgt = secs[a % len(secs)]
+                odml.Section(name="linking-%d" % b, type=tgt.type, parent=doc, link=tgt.get_path())
+            elif op == "numeric_strings" and secs:
+                odml.Property(name="numstr-%d" % b, dtype="string",
+                              values=[["1", "2.5"], ["1", "2.5", "2020-01-01"], ["12:00:00", "3"],
+                                      ["true", "7"]][b % 4], parent=secs[a % len(secs)])
         except Exception:
             pass
 
@@ -270,7 +280,7 @@ def body(case):
 
 def plan(tier):
     if tier == "quick":
-        return [{"name": "hist%d" % i, "n": 40, "depth": 2} for i in range(16)]
+        return [{"name": "hist%d" % i, "n": 100, "depth": 2} for i in range(16)]
     return [{"name": "hist%d" % i, "n": 1200, "depth": 3} for i in range(16)]
 
 
